@@ -18,7 +18,7 @@ RULE = (
     "generated item list: every single item of the product mnemonic(7) x unit(9) x value(14) x description(6) allowed "
     "by the statement's conformance clause, every ordered pair over a 36-kind palette (so each kind is in turn the "
     "widest of its section and next to empty-unit/empty-value neighbours), thorough: every ordered triple over a "
-    "12-kind palette; ~Other variants; written as 1.2 and 2.0, read back with mnemonic_case preserve/upper/lower, and the re-read object written and read once more (same version and case); "
+    "12-kind palette; ~Other variants; written as 1.2 and 2.0, read back with mnemonic_case preserve/upper/lower, and the re-read object written and read once more (same version and case); for pairs the original object is then edited in place (fields of the two items exchanged) and written again, and a narrow twin of the point is written, grown in place to the point's fields and written again; before the first point the process reads many other files (process prelude); "
     "non-trivial = the list holds an item whose unit, value or description is non-empty"
 )
 ASSUMPTIONS = [
